@@ -244,3 +244,7 @@ def run(ctx: Context) -> None:  # noqa: F811
 
     ctx.rep.rule('C20.R7', 'the configured retries value reaches every connection constructor unchanged (store link + pass link)')
     plumb.plumbing(ctx, 'C20.R7', ['retries'])
+    from . import support
+
+    ctx.rep.rule('C20.R8', 'the back-off pause is really taken: every coroutine call on the sleep chain (connection -> default backend -> runtime) is awaited')
+    support.coroutine_calls_awaited(ctx, 'C20.R8', ('sleep', '_connect'))
